@@ -60,6 +60,19 @@ pub fn show_evs(es: &[Ev]) -> String {
     )
 }
 
+/// A visitor that implements ONLY the required method and relies on the trait's default
+/// (no-op, `true`) implementations for the other four callbacks - what most users write.
+struct Minimal {
+    seen: Vec<(Vec<u8>, Vec<u8>)>,
+}
+
+impl<'a, const N: usize, K: AsRef<[u8]>> Visitor<'a, N, K> for Minimal {
+    fn visit_node(&mut self, node: &'a Node<N, K>) -> bool {
+        self.seen.push((node.key().as_ref().to_vec(), node.value_hash().as_bytes().to_vec()));
+        true
+    }
+}
+
 /// Recording visitor; asks to stop at the `stop`-th callback (0-based).
 struct Rec {
     evs: Vec<Ev>,
@@ -140,6 +153,10 @@ pub trait AnyTree {
     fn cached(&self) -> Option<[u8; 16]>;
     fn events(&self, stop: Option<usize>) -> Vec<Ev>;
     fn iter(&self) -> Vec<(Vec<u8>, Vec<u8>)>;
+    /// nodes seen by a visitor relying on the trait's default callbacks
+    fn minimal_visit(&self) -> Vec<(Vec<u8>, Vec<u8>)>;
+    /// `root_hash_cached() == root_hash_cached()` through `PartialEq` of `RootHash` (None if either is absent)
+    fn root_eq(&self, other: &dyn AnyTree) -> Option<bool>;
     fn ser(&self) -> Option<Vec<OwnedRange>>;
     /// `diff(local = self, peer)` on borrowed ranges; also checks (C16) that owned snapshots and
     /// ranges rebuilt from accessors give the same result in either argument position.
@@ -305,6 +322,18 @@ where
             .node_iter()
             .map(|n| (n.key().as_ref().to_vec(), n.value_hash().as_bytes().to_vec()))
             .collect()
+    }
+    fn minimal_visit(&self) -> Vec<(Vec<u8>, Vec<u8>)> {
+        let mut m = Minimal { seen: vec![] };
+        self.t.in_order_traversal(&mut m);
+        m.seen
+    }
+    fn root_eq(&self, other: &dyn AnyTree) -> Option<bool> {
+        let o = other.as_any().downcast_ref::<Self>()?;
+        match (self.t.root_hash_cached(), o.t.root_hash_cached()) {
+            (Some(a), Some(b)) => Some(a == b && !(a != b) && **a == **b),
+            _ => None,
+        }
     }
     fn ser(&self) -> Option<Vec<OwnedRange>> {
         self.t.serialise_page_ranges().map(|v| to_owned_ranges(&v))
